@@ -64,7 +64,7 @@ def build() -> dict:
     na = [{"property_id": k, "reason": v} for k, v in NOT_APPLICABLE.items()]
     for pid, (engine, tech, text) in sorted(TABLE.items()):
         try:
-            importlib.import_module(f"sa.rules.{pid.lower()}")
+            mod = importlib.import_module(f"sa.rules.{pid.lower()}")
         except ModuleNotFoundError:
             na.append({"property_id": pid, "reason": "static rules designed (DESIGN.md section 4) but not yet implemented in this commit"})
             continue
@@ -75,8 +75,10 @@ def build() -> dict:
             "evidence_file": f"/verif/evidence/{pid}.json",
             "replay_cmd_template": "/venv/bin/python -m sa.run --replay {path}",
             "engine": engine,
-            "level_claimed": {"category": "other", "text": "static analysis of the working tree; clause-level: " + text,
-                              "design_ref": f"DESIGN.md section 4, {pid}"},
+            "level_claimed": {"category": "other",
+                              "text": "static analysis of the working tree; clause-level: " + text
+                                      + "  All clauses decided today (same text as in the evidence file): " + getattr(mod, "EXPLANATION", ""),
+                              "design_ref": f"DESIGN.md section 4 ({pid}), sections 12-19 (rules added after seeding rounds), Appendix A (generated rule index)"},
             "level_note": NOTE,
             "technique": "static analysis: " + tech,
         })
@@ -97,8 +99,10 @@ def build() -> dict:
              "kind_free_text": "visitor x grammar coverage: rope's hand-written AST visitors compared with the running interpreter's ASDL grammar"},
             {"name": "ecg", "path": "sa/callgraph.py", "serves_properties": ["C04", "C05", "C09", "C10", "C11", "C12", "C13", "C16", "C18", "C19", "C20"],
              "kind_free_text": "call graph with typed/CHA/by-name resolution, effect sinks, provenance, CFG path rules"},
-            {"name": "rca", "path": "sa/rca.py, sa/fold.py", "serves_properties": ["C02", "C08", "C14"],
-             "kind_free_text": "constant folding of regex-building code, regex AST to NFA/DFA, language inclusion with counter-example"},
+            {"name": "rca", "path": "sa/rca.py, sa/rederiv.py, sa/fold.py", "serves_properties": ["C02", "C08", "C14", "C16"],
+             "kind_free_text": "constant folding of regex-building code, regex AST to NFA/DFA, language inclusion with counter-example; exact inclusion with lookahead by Brzozowski derivatives"},
+            {"name": "selftest", "path": "sa/selftest.py, sa/mutations.py, sa/astmut.py, sa/transforms.py, seeded/, benign/", "serves_properties": sorted(TABLE),
+             "kind_free_text": "thorough tier: AST mutants and kept seeded changes must be reported; verdicts invariant under reformatting and three whole-tree rewrites; kept behaviour-preserving refactorings must raise no alarm"},
         ],
         "checks": checks,
         "not_applicable": sorted(na, key=lambda d: d["property_id"]),
